@@ -34,6 +34,9 @@ package main
 //                loop schedules on a real object.Chan driven through Chan.Iter(), segmented consumers in scripts (c10loops.go).
 //   I. modules   what a thread's VM knows of the modules: threads come and go, the spawner imports in between,
 //                later threads call into / import what their spawner knew; step by step on one real VM (c10mods.go).
+//   L. capacity  buffer capacity 0..4 step by step on a real object.Chan made by NewChan / chan(n) / make(chan, n):
+//                non-blocking probes (len/cap of Chan.Value(), cancelled-context calls), queue length and
+//                would-block flags compared with the model after every step (c10cap.go; PropsCap.lean).
 
 import (
 	"context"
@@ -90,14 +93,17 @@ func c10_runC10(e *Env) {
 		"every effect reported with the thread's tag, wait() read under try(); non-trivial when a spawned body executes a defer statement after a chain of >= 16 frames below it was left; distinct by (bodies, executions, GOMAXPROCS). " +
 		"K: wide-call scenarios = one spawner (1..5 variables, global or function-local) with 3..10 statements: assignments and call statements of functions with req required parameters and nd parameters with defaults (0..48 parameters, drawn small and around 8/9, 16/17, 32/33), " +
 		"given n arguments (req <= n <= req+nd; a quarter of the go statements: one too few / one too many, the arity error being fatal in every other form), argument expressions as in C, each call statement a direct call or go f() | go o.m() | go pick()() | spawn() | f.spawn() | host object.Spawn, every spawned call held at a gate until the spawner's last statement; " +
-		"each call reports all its parameter values; compared with C10 wide (wideRun) and with arguments-at-the-spawn-site-then-defaults; non-trivial when a spawned call is given more than 8 arguments; distinct by (layout, GOMAXPROCS, variables, forms, statements)"
+		"each call reports all its parameter values; compared with C10 wide (wideRun) and with arguments-at-the-spawn-site-then-defaults; non-trivial when a spawned call is given more than 8 arguments; distinct by (layout, GOMAXPROCS, variables, forms, statements). " +
+		"L: capacity histories (8..40 steps, 4 threads) on one real object.Chan of capacity 0..4 made by object.NewChan(n) | builtin chan(n) | builtin make(chan, n): sends (per-history rate 35..85%), receives, Next+Entry pairs, closes (also repeated, also followed by sends), hand-offs for capacity 0, " +
+		"plus 15 directed fill-to-the-brim/close/drain histories; whether a step can proceed is read off len/cap of Chan.Value(), a step that cannot is made 3x with an already cancelled context and must return context.Canceled each time; after every step queue length, send-would-block and receive-would-block are compared with C10 capseq, " +
+		"at the end the queue is drained value by value; non-trivial when >= 1 send was refused on a full open channel and >= 2 values were received; distinct by (cap, form, op list)"
 	prev := runtime.GOMAXPROCS(0)
 	defer runtime.GOMAXPROCS(prev)
 	parts := []struct {
 		name string
 		run  func(*Env)
 	}{{"chanops", c10ChanOps}, {"closeraces", c10CloseRaces}, {"builtins", c10SpawnBuiltins}, {"spawn", c10Spawn}, {"tree", c10Tree},
-		{"nested", c10Nested}, {"topologies", c10Topologies}, {"loops", c10Loops}, {"mods", c10Mods}, {"calls", c10Calls}, {"wide", c10Wide}} // (new parts last: the earlier parts keep their random streams)
+		{"nested", c10Nested}, {"topologies", c10Topologies}, {"loops", c10Loops}, {"mods", c10Mods}, {"calls", c10Calls}, {"wide", c10Wide}, {"capacity", c10Capacity}} // (new parts last: the earlier parts keep their random streams)
 	only := os.Getenv("VERIF_C10_ONLY") // development aid: run some parts only (comma separated)
 	for _, p := range parts {
 		if only != "" && !strings.Contains(","+only+",", ","+p.name+",") {
